@@ -746,6 +746,8 @@ UDF_SCRIPTS = {
                                                                ('file', '/E1.;1', '/empty one', 0), ('file', '/E2.;1', '/empty two', 0),
                                                                ('rm_file', '/A.;1', '/' + 'a' * 120 + '\u4e2d'), ('rm_file', '/B.;1', '/' + 'b' * 110 + '\u00e9'),
                                                                ('dir', '/D', '/d\u00e9'), ('rm_dir', '/D', '/d\u00e9'), ('dir', '/G', '/g')]),
+    'udf-mixed-encodings': (dict(udf='2.60'), [('dir', '/D1', '/caf\u00e9'), ('file', '/D1/A.;1', '/caf\u00e9/\u65e5\u672c.txt', 3), ('dir', '/D2', '/\u65e5\u672c'),
+                                               ('file', '/D2/B.;1', '/\u65e5\u672c/abc', 4), ('dir', '/D2/D3', '/\u65e5\u672c/\u00fcber'), ('file', '/D2/D3/C.;1', '/\u65e5\u672c/\u00fcber/\u4e2d', 5)]),
     'udf-symlink': (dict(udf='2.60', rock_ridge='1.09'), [('file', '/A.;1', '/a', 5), ('dir', '/D', '/d'), ('symlink', '/S.;1', '/s', 'd/../a'),
                                                           ('symlink', '/T.;1', '/t', '/abs/./x')]),
 }
@@ -956,6 +958,16 @@ class ReopenedUDF(Base):
         kw, script = get_udf_script(self.script)
         model, content_m = udf_model(script)
         cl = {}
+        # the library names every UDF entry of the opened image by the path it was given (each component in its own encoding)
+        paths_ok = []
+        for pth in sorted(model):
+            good, rec = S.try_call(c, lambda: S.call(c, a.re, 'get_record', udf_path=pth))
+            if not good:
+                paths_ok.append(False)
+                continue
+            good, full = S.try_call(c, lambda: S.call(c, a.re, 'full_path_from_dirrecord', rec))
+            paths_ok.append(good and full == pth)
+        cl['library-reports-the-given-udf-paths'] = all(paths_ok)
         ok, again = S.try_call(c, lambda: S.written(c, a.re))
         cl['remastering-succeeds'] = ok
         if ok:
